@@ -67,3 +67,10 @@ Definition outcome_code (r : outcome) : N :=
 Definition all_skind := [SFile; SDir; SLink; SSpecial].
 Definition all_dstate := [DAbsent; DFile; DDirEmpty; DDirFull; DLinkFile; DLinkDir; DDangling; DSpecial].
 Definition all_dopt := [ONone; ONoClobber; OBackup].
+
+(* ---- one more state of the destination, outside the table above because no entry is FOUND: the PARENT directory of the
+   mapped destination does not exist (`xcp f nodir/f`).  A directory source creates the missing ancestors itself
+   (create_dir_all); for every other kind the creating call — open(O_CREAT), symlink, mknod — answers ENOENT, which is a
+   failed step like any other: refused, nothing created.  It is never `the source vanished`. *)
+Definition parent_missing_outcome (s : skind) : outcome :=
+  match s with SDir => Created | _ => Refused end.
